@@ -7,14 +7,27 @@ import TrVerif.Proofs.RenderValid
 import TrVerif.Model.Calc
 namespace Tr
 
+/-- the walking router lists every stop at most once around the destination (then the entry the
+    reconstruction looks up is the one that seeded the label) -/
+def Ctx.EgrNodup (cx : Ctx) : Prop := (cx.egressFoot.map (·.stop)).Nodup
+
+/-- the first-waiting test of a departure-time query: counted from the moment the traveller can
+    stand at the first stop (requested departure + access walk), the wait for the first vehicle is
+    within the cap - unless the cap is smaller than the minimum waiting time in force, which no
+    boarding could satisfy (DESIGN 0.5) -/
+def FirstWaitOK (cx : Ctx) (e : Conn) (walk : Int) : Prop :=
+  cx.depT ≠ -1 → (cx.p.maxFirstWait < e.effWait cx.p.minWait ∨ e.dep - cx.depT - walk ≤ cx.p.maxFirstWait)
+
 /-- a complete journey: access step, at least one leg, egress step, all consistent with the
     tables of the walking router and with the departure time `bd` -/
 def JourneyOK (cx : Ctx) (C : List Conn) (bd : Int) (j : List JStep) : Prop :=
   ∃ acc legs egr, j = [acc] ++ legs ++ [egr] ∧ acc.enter = none ∧ egr.enter = none ∧ legs ≠ [] ∧
     LegsOK cx C legs ∧
     (∀ e, legs.head?.bind (·.enter) = some e →
-      (⟨e.depStop, acc.walk, acc.dist⟩ : NTD) ∈ cx.accessFoot ∧ bd + acc.walk + e.effWait cx.p.minWait ≤ e.dep) ∧
-    (∀ l x, legs.getLast? = some l → l.exit = some x → (⟨x.arrStop, egr.walk, egr.dist⟩ : NTD) ∈ cx.egressFoot)
+      (⟨e.depStop, acc.walk, acc.dist⟩ : NTD) ∈ cx.accessFoot ∧ bd + acc.walk + e.effWait cx.p.minWait ≤ e.dep ∧
+      FirstWaitOK cx e acc.walk) ∧
+    (∀ l x, legs.getLast? = some l → l.exit = some x → (⟨x.arrStop, egr.walk, egr.dist⟩ : NTD) ∈ cx.egressFoot ∧
+      (cx.EgrNodup → x.arr + egr.walk ≤ cx.arrT))
 
 /-- the journey clean-up (`optimizeJourney`) maps valid journeys to valid journeys -/
 def CleanupPreserves (cx : Ctx) (C : List Conn) : Prop :=
@@ -71,8 +84,8 @@ theorem emit_valid {cx : Ctx} {C T : List Conn} (hCT : ∀ c ∈ C, c ∈ T) (mw
   have hf := hfirst e1 (by simp [he1])
   have hrides := stepsOfLegs_valid cx C T hCT mwOf cx.egressFoot egr (l1 :: rest) (bd + acc.walk) hne hok
     (fun l hl e he => hmw e (hok.mem_enter l hl e he))
-    (by intro e h; simp [he1] at h; subst h; exact hf.2)
-    (fun l x hl hx => ⟨egr.dist, hlast l x hl hx⟩)
+    (by intro e h; simp [he1] at h; subst h; exact hf.2.1)
+    (fun l x hl hx => ⟨egr.dist, (hlast l x hl hx).1⟩)
   have hhead := stepsOfLegs_head cx.ds cx.p.minWait egr l1 rest (bd + acc.walk) e1 x1 he1 hx1
   obtain ⟨tail, htail⟩ : ∃ tail, stepsOfLegs cx.ds cx.p.minWait (bd + acc.walk) (l1 :: rest) egr
       = boardOf (bd + acc.walk) e1 :: tail := by
@@ -236,6 +249,97 @@ theorem reconLoop_head (steps : Nat → JStep) : ∀ (fuel : Nat) (cur : JStep) 
       | nil => exact absurd (hne rfl) hnc
       | cons a b => simp
 
+theorem foldl_upd_untouched {α : Type} (g : NTD → α) (s : Nat) :
+    ∀ (l : List NTD) (f : Nat → α), (∀ e ∈ l, e.stop ≠ s) → (l.foldl (fun f e => upd f e.stop (g e)) f) s = f s := by
+  intro l
+  induction l with
+  | nil => intro f _; rfl
+  | cons a rest ih =>
+    intro f h
+    rw [List.foldl_cons, ih _ (fun e he => h e (List.mem_cons_of_mem _ he))]
+    exact upd_other _ _ _ _ (fun e => h a (List.mem_cons_self ..) e.symm)
+
+theorem foldl_upd_nodup {α : Type} (g : NTD → α) :
+    ∀ (l : List NTD) (f : Nat → α), (l.map (·.stop)).Nodup → ∀ a ∈ l, (l.foldl (fun f e => upd f e.stop (g e)) f) a.stop = g a := by
+  intro l
+  induction l with
+  | nil => intro f _ a ha; cases ha
+  | cons b rest ih =>
+    intro f hnd a ha
+    rw [List.map_cons, List.nodup_cons] at hnd
+    rw [List.foldl_cons]
+    rcases List.mem_cons.mp ha with rfl | h
+    · rw [foldl_upd_untouched g a.stop rest _ (fun e he hs => hnd.1 (by rw [← hs]; exact List.mem_map_of_mem he))]
+      exact upd_same _ _ _
+    · exact ih _ hnd.2 a h
+
+/-- with a duplicate-free egress list, the initial label of an egress stop is the requested
+    arrival minus its walk -/
+theorem init_lab_egress {cx : Ctx} (hnd : cx.EgrNodup) {eg : NTD} (h : eg ∈ cx.egressFoot) :
+    (RState.init cx).lab eg.stop = cx.arrT - eg.time := by
+  unfold RState.init
+  exact foldl_upd_nodup (fun e => cx.arrT - e.time) cx.egressFoot _ hnd eg h
+
+/-- the arrival chosen by the forward pass lies within max_travel_time of the requested departure -/
+theorem bestEgress_spec {cx : Ctx} {s : FState} {t : Int} {n : Nat} (h : bestEgress cx s = some (t, n)) :
+    t - cx.depT ≤ cx.p.maxTotal := by
+  unfold bestEgress at h
+  have key : ∀ (l : List NTD) (acc : Int × Option Nat), (acc.2.isSome = true → acc.1 - cx.depT ≤ cx.p.maxTotal) →
+      ((l.foldl (fun (acc : Int × Option Nat) e =>
+        match s.egr e.stop with
+        | some js => match js.exit, cx.nodesEgress e.stop with
+          | some x, some eg =>
+            let t := x.arr + eg.time
+            if t ≥ 0 ∧ t - cx.depT ≤ cx.p.maxTotal ∧ t < acc.1 ∧ t < MAX_INT then (t, some eg.stop) else acc
+          | _, _ => acc
+        | none => acc) acc).2.isSome = true →
+       (l.foldl (fun (acc : Int × Option Nat) e =>
+        match s.egr e.stop with
+        | some js => match js.exit, cx.nodesEgress e.stop with
+          | some x, some eg =>
+            let t := x.arr + eg.time
+            if t ≥ 0 ∧ t - cx.depT ≤ cx.p.maxTotal ∧ t < acc.1 ∧ t < MAX_INT then (t, some eg.stop) else acc
+          | _, _ => acc
+        | none => acc) acc).1 - cx.depT ≤ cx.p.maxTotal) := by
+    intro l
+    induction l with
+    | nil => intro acc h0 h1; exact h0 h1
+    | cons e rest ih =>
+      intro acc h0
+      rw [List.foldl_cons]
+      apply ih
+      cases hs : s.egr e.stop with
+      | none => simpa using h0
+      | some js =>
+        cases hx : js.exit with
+        | none => simpa [hx] using h0
+        | some x =>
+          cases hg : cx.nodesEgress e.stop with
+          | none => simpa [hx, hg] using h0
+          | some eg =>
+            simp only [hx, hg]
+            by_cases hc : x.arr + eg.time ≥ 0 ∧ x.arr + eg.time - cx.depT ≤ cx.p.maxTotal ∧ x.arr + eg.time < acc.1 ∧ x.arr + eg.time < MAX_INT
+            · rw [if_pos hc]; intro _; exact hc.2.1
+            · rw [if_neg hc]; exact h0
+  revert h
+  generalize hr : (cx.egressFoot.foldl (fun (acc : Int × Option Nat) e =>
+        match s.egr e.stop with
+        | some js => match js.exit, cx.nodesEgress e.stop with
+          | some x, some eg =>
+            let t := x.arr + eg.time
+            if t ≥ 0 ∧ t - cx.depT ≤ cx.p.maxTotal ∧ t < acc.1 ∧ t < MAX_INT then (t, some eg.stop) else acc
+          | _, _ => acc
+        | none => acc) (MAX_INT, none)) = r
+  intro h
+  have hk := key cx.egressFoot (MAX_INT, none) (by simp)
+  rw [hr] at hk
+  cases hr2 : r.2 with
+  | none => simp [hr2] at h
+  | some st =>
+    simp [hr2] at h
+    rw [← h.1]
+    exact hk (by simp [hr2])
+
 theorem nodes_mem {l : List NTD} {s : Nat} {a : NTD} (h : l.find? (·.stop = s) = some a) : a ∈ l ∧ a.stop = s :=
   find_mem h
 
@@ -282,13 +386,16 @@ theorem reverseJourney_emits {cx : Ctx} {pre : List Conn} {s : RState} (hI : RIn
           have hres := reconLoop_valid hI _ _ _ _ _ _ hinit (fun _ => hconn) hrec
           have hhead := reconLoop_head s.steps _ _ _ _ _ _ (fun _ => hconn) hrec
           simp only [List.nil_append, List.head?_cons, Option.bind_some] at hhead
-          obtain ⟨ll, el, xl, hl1, hl2, hl3, hl4, _, _, _⟩ := hres.fin
+          obtain ⟨ll, el, xl, hl1, hl2, hl3, hl4, hl5, _, _⟩ := hres.fin
           have hJ : JourneyOK cx pre bd ([{ walk := ac.time, dist := ac.dist }] ++ legs ++ [{ walk := eg.time, dist := eg.dist }]) := by
             refine ⟨_, legs, _, rfl, rfl, rfl, hres.ne, hres.ok, ?_, ?_⟩
             · intro e he
               rw [hhead, hje] at he; cases he
               have hm := nodes_mem hna
-              refine ⟨?_, by simp; omega⟩
+              refine ⟨?_, by simp; omega, fun hd => by
+                obtain ⟨ac', hna', _, hcap⟩ := a5 hd
+                rw [hna] at hna'; cases hna'
+                exact hcap⟩
               have : (⟨e1.depStop, ac.time, ac.dist⟩ : NTD) = ac := by
                 cases ac; simp at hm ⊢; rw [a4]; exact hm.2.symm
               simp only []
@@ -302,7 +409,13 @@ theorem reverseJourney_emits {cx : Ctx} {pre : List Conn} {s : RState} (hI : RIn
               have : (⟨xl.arrStop, eg.time, eg.dist⟩ : NTD) = eg := by
                 cases eg; simp at hm ⊢; exact hm.2.symm
               simp only []
-              rw [this]; exact hm.1
+              rw [this]
+              refine ⟨hm.1, ?_⟩
+              intro hnd
+              have hlab := init_lab_egress hnd hm.1
+              rw [hm.2] at hlab
+              rw [hlab] at hl5
+              omega
           refine ⟨bd, o.journey, rfl, hclean bd _ o hJ hopt, hbd0, hbdT, ?_⟩
           intro hd
           obtain ⟨ac', hna', hle, _⟩ := a5 hd
